@@ -64,17 +64,32 @@ PROVED = [
     '[P] primorial_lower_bound (fifth wave): 4^n <= (2n)^(s+2) * prod_{p <= 2n} p whenever 2n < (s+1)^2 (from the Bertrand development: 4^n <= 2n C(2n,n), p^(v_p C(2n,n)) <= 2n, v_p <= 1 for p > sqrt(2n)); '
     'small_prime_exists: a non-zero integer D with log2 |D| < 2^30 has a prime p < 2^31 not dividing it. Size of D: Leibniz bound |det A| <= n! M^n on the Sylvester matrix (Refine/W5DetBound.v) and |q_i| <= 2^deg(q) ||a||_1 for a divisor q of a '
     '(Landau-Mignotte) give log2 |D| <= 50 B + 2039 for coefficients of at most B bits and degree <= 25',
+    '[P] find_prime_terminates (seventh wave): for every canonical non-constant q, square-free over Q, with prime_fuel q = 2 len (log2 ||q||_1 + log2 len + 2) + 8 <= 2^30 (a condition on the size of q only; '
+    'for degree 25 it allows coefficients of 20 million bits) the prime search find_prime (prime_fuel q) q 2 -- the call made by get_factors_of_squarefree -- returns on the supplied fuel (no OutOfFuel, no panic) a pair (p, p) with p prime below 2^31; '
+    'find_prime_terminates_of_small_prime: the same without any size condition for every q such that some prime p0 < 2^31 does not divide D = lc(q) Res(q\', q) (the result is then a prime <= p0). '
+    'Proof: a rejected prime divides D (find_prime_small), k distinct rejected primes give 2^k <= |D|, discriminant_below_fuel: |D| <= n^n ||q||_1^(2n) < 2^(prime_fuel q - 8) by the row-sum bound of the Sylvester determinant '
+    '(determinant_row_sum_bound: |det A| <= prod_i sum_j |A_ij| over any numeric domain, from the Leibniz formula and MathComp bigA_distr_bigA; resultant_l1_bound: |Res(p, q)| <= ||p||_1^deg(q) ||q||_1^deg(p)); the primes tried are real primes '
+    'below 2^31 on which the iterator returns (C19 primes_next_total) and poly_mod / differential / poly_gcd are total (C08)',
+    '[P] factorize_no_panic_sized (seventh wave): for EVERY canonical input of degree <= 25 whose coefficients have at most 2^24 bits (the inputs of factorize_correct_sized), every draw stream and both profiles, factorize returns a value or '
+    'runs out of fuel, and in the latter case it was factorize_mod_p on the square-free part q = pp / gcd(pp, pp\') and the prime found by the search that exhausted its retry fuel (400 failed random splits in a row / 4096 rejected samples: C08). '
+    'No panic: no assert!, expect, index, overflow or division-by-zero panic of poly_z::factorize, factorize_mod_p, lift_factorization and their helpers is reachable from these inputs; in particular the check that all modular multiplicities are 1 '
+    'passes (q mod p is square-free because p passed the gcd test of the search), the Hensel lifting returns (distinct monic irreducibles mod p are pairwise coprime with Bezout witnesses in Z[x]: C11 lift_factorization_total), '
+    'assert!(lifted.len() <= 25) passes (at most deg q <= 25 lifted factors), every subset test returns (indices in range, modulus non-zero, subset product non-zero mod p^e so prod.deg() + 1 does not overflow) and the recombination and '
+    'multiplicity loops terminate on their fuel. squarefree_factors_no_panic_sized: the same for get_factors_of_squarefree on a canonical square-free q of degree 1..25 with prime_fuel q <= 2^30; '
+    '[C] squarefree_factors_no_panic_partial: the same for any canonical q of degree 1..25 conditional on the run-computed flag "the prime search returned (p, p)"',
     'non-vacuity: complete runs by vm_compute: (x+1)^7, 3x^2(x+1)^12, 4x^4+1 with the 40 logged random bytes, -6(x^2+x+1)(2x^2+1), x^4-10x^2+1 (split mod every prime); '
     'the gcd and square-free part of (x+1)^7; the separability hypothesis for x^4-10x^2+1 and -6(x^2+x+1)(2x^2+1); the irreducibility hypothesis for the run on (x+1)^7',
 ]
 NOT_PROVED = [
     'irreducibility of the returned factors and the product clause for inputs with repeated factors for inputs BEYOND the size bound of factorize_correct_sized (degree > 25 -- outside the property -- or some coefficient of more than '
     '2^24 bits) without the run-computed condition "the prime found equals its machine-word copy" (factorize_correct_flag covers those runs conditionally): for a polynomial whose lc * discriminant is divisible by every prime below 2^31 '
-    '(at least 2^30 bits) the code would wrap the prime to a negative i32 (the faithful model does the same). The bound 2^24 bits is not optimal (the Leibniz bound is used instead of Hadamard\'s)',
-    'termination of the prime search on the supplied fuel (find_prime_small bounds the PRIME returned, not the number of iterations allowed by prime_fuel: that needs the Hadamard bound log2 |lc disc| <= (2n-1) log2 ||q||_1 + n log2 n, not proved; run on generous fuel) and of the modular factorisation (probability 1 only); '
-    'the exponent loop, the recombination loop and the multiplicity loops are proved to terminate on the supplied fuel',
-    'absence of panics inside the modular factorisation / Hensel lifting on the inputs factorize passes to them, and of the assert!(lifted.len() <= 25) (outside the property: more than 25 modular factors); '
-    'the two expect() of poly_z::factorize are proved unreachable',
+    '(at least 2^30 bits) the code would wrap the prime to a negative i32 (the faithful model does the same). The bound 2^24 bits is not optimal, but the row-sum bound of the seventh wave (log2 |lc Res| <= 50 B + 1925 instead of 50 B + 2039 for B-bit coefficients) would only raise it to about 21 million bits: '
+    'the limit is the 2^30 bits of the product of the primes below 2^31',
+    'termination of the prime search and absence of panics BEYOND the size bounds of find_prime_terminates (prime_fuel q <= 2^30, or a prime below 2^31 not dividing lc(q) Res(q\', q)) and factorize_no_panic_sized (degree <= 25, coefficients of at most 2^24 bits): '
+    'there the faithful model wraps primes >= 2^31 through `as i32` to negative (or tiny) moduli and the tests made with them are no longer divisibility tests, so neither the fuel bound nor the totality of the modular routines is available; '
+    'for more than 25 modular factors (degree > 25, outside the property) the assert!(lifted.len() <= 25) fires',
+    'termination of the modular factorisation for ALL draw streams (probability 1 only: the model gives up after 400 failed random splits in a row / 4096 rejected samples, the Rust code keeps drawing); '
+    'the prime search (within the size bound), the exponent loop, the recombination loop and the multiplicity loops are proved to terminate on the supplied fuel',
 ]
 RULE = ('poly_z::factorize with logged random draws replayed by the model: every coefficient vector of length 4 over {-2..2} (all polynomials of degree <= 3, '
         'trailing zeros included) and 300 of degree 4 (thorough: all 2500); products c * prod g_i^e_i of 1-4 distinct factors from a table of 33 certified irreducibles '
@@ -94,11 +109,11 @@ CLAIM = dict(
          'non-constant with positive leading coefficient, the f_i are pairwise distinct and pairwise coprime over Q, every e_i >= 1 is the exact multiplicity of f_i in the input, and '
          'a = c * cof * prod f_i^e_i for a ghost cofactor cof that is primitive, positive, divides gcd(pp, pp\') and has all its irreducible factors among those of prod f_i. The square-free part '
          'is computed correctly (gcd and exact division never fail; the quotient is square-free and has every irreducible factor of the input). The product clause a = c * prod f_i^e_i is '
-         'proved for all square-free inputs, and for all inputs if the returned polynomials are irreducible or the run\'s final cofactor is 1. Irreducibility of every returned polynomial, hence the whole property (cofactor 1, a = c * prod f_i^e_i, f_i irreducible), is proved for every completed run on EVERY input of degree <= 25 whose coefficients have at most 2^24 bits (factorize_correct_sized: a hypothesis on the input only; a rejected prime divides lc * Res(q, q\') of the square-free part, which has fewer than 2^30 bits, and the product of the primes below 2^31 has more), and beyond that size for every completed run on an input of at most 2^32 coefficients whose prime search returned a prime below 2^31 (not wrapped by `as i32`; a value of the run): Landau-Mignotte bound (over the algebraic numbers) => the modulus p^e chosen by the code suffices; uniqueness of Hensel lifts; soundness and completeness of the subset search in mask order (with C08 and C11). Neither expect() of poly_z::factorize can fire. Zero gives (0, []), a constant c gives (c, []). '
+         'proved for all square-free inputs, and for all inputs if the returned polynomials are irreducible or the run\'s final cofactor is 1. Irreducibility of every returned polynomial, hence the whole property (cofactor 1, a = c * prod f_i^e_i, f_i irreducible), is proved for every completed run on EVERY input of degree <= 25 whose coefficients have at most 2^24 bits (factorize_correct_sized: a hypothesis on the input only; a rejected prime divides lc * Res(q, q\') of the square-free part, which has fewer than 2^30 bits, and the product of the primes below 2^31 has more), and beyond that size for every completed run on an input of at most 2^32 coefficients whose prime search returned a prime below 2^31 (not wrapped by `as i32`; a value of the run): Landau-Mignotte bound (over the algebraic numbers) => the modulus p^e chosen by the code suffices; uniqueness of Hensel lifts; soundness and completeness of the subset search in mask order (with C08 and C11). Neither expect() of poly_z::factorize can fire. Seventh wave: for every input of degree <= 25 with coefficients of at most 2^24 bits, every draw stream and both profiles, factorize does not panic (factorize_no_panic_sized: it returns a value, or the model\'s OutOfFuel exactly when the randomised modular factorisation exhausted its retry fuel), and the prime search returns on the fuel the model supplies (find_prime_terminates: size condition prime_fuel q <= 2^30, via |lc Res(q\', q)| <= n^n ||q||_1^(2n) from the row-sum bound of the Sylvester determinant). Zero gives (0, []), a constant c gives (c, []). '
          'The model is tied to /repo by running the extracted model on the random bytes logged by the implementation: identical answers including the order of the factors and the number of bytes consumed.',
     note='Irreducibility and the product clause for inputs with repeated factors are [P] for inputs of degree <= 25 with coefficients of at most 2^24 bits, and [C] beyond (conditional on the run-computed flag "prime found = its machine-word copy" (p < 2^31) and on at most 2^32 coefficients); '
-         'they are also checked by the oracle (always_oracle) and by the cofactor flag of every model run. Termination of the prime search and of the '
-         'modular factorisation is on fuel.',
+         'they are also checked by the oracle (always_oracle) and by the cofactor flag of every model run. Termination of the prime search is [P] within the size bound prime_fuel q <= 2^30 (find_prime_terminates) and absence of panics is [P] for inputs of degree <= 25 with coefficients of at most 2^24 bits (factorize_no_panic_sized); '
+         'beyond these bounds both are on fuel / not proved (as i32 wrap of primes >= 2^31). Termination of the modular factorisation holds with probability 1 only and stays on fuel.',
     ref='DESIGN.md section 4, C07')
 
 # ------------------------------------------------------------------ Z[x] helpers (independent of the model)
